@@ -256,9 +256,14 @@ func cmdRun(args []string) int {
 			if o.MaxPaths > 0 {
 				opts.MaxPaths = o.MaxPaths
 			}
+			opts.BudgetSeconds = 900
 			if *tier == "thorough" {
 				opts.Tier = 1
 				opts.AssertTimeout = 300000
+				opts.BudgetSeconds = 5400
+			}
+			if v := os.Getenv("VERIF_BUDGET_S"); v != "" {
+				fmt.Sscan(v, &opts.BudgetSeconds)
 			}
 			ex := symexec.NewExplorer(ld.Prog, fn, modulePath, ld.Sizes, opts)
 			ex.SetKnown(openIDs)
